@@ -47,6 +47,17 @@ def _iter_chunks(stream, chunk_size, seek_offset=None, seek_whence=0):
         chunk = stream.read(chunk_size)
 
 
+def _encode_text(text):
+    """UTF-8 for text that becomes a detail.
+
+    Lone surrogates (as os.fsdecode produces for undecodable file names, which
+    then turn up in error messages) cannot be encoded: they are written as
+    backslash escapes, the way Python prints them in a traceback, rather than
+    making the report of a failure fail itself.
+    """
+    return text.encode("utf8", "backslashreplace")
+
+
 class Content:
     """A MIME-like Content object.
 
@@ -148,7 +159,7 @@ class StackLinesContent(Content):
         value = (
             prefix_content + self._stack_lines_to_unicode(stack_lines) + postfix_content
         )
-        super().__init__(content_type, lambda: [value.encode("utf8")])
+        super().__init__(content_type, lambda: [_encode_text(value)])
 
     def _stack_lines_to_unicode(self, stack_lines):
         """Converts a list of pre-processed stack lines into a unicode string."""
@@ -202,7 +213,7 @@ class TracebackContent(Content):
         content_type = ContentType(
             "text", "x-traceback", {"language": "python", "charset": "utf8"}
         )
-        super().__init__(content_type, lambda: [x.encode("utf8") for x in stack_lines])
+        super().__init__(content_type, lambda: [_encode_text(x) for x in stack_lines])
 
 
 def StacktraceContent(prefix_content="", postfix_content=""):
@@ -252,7 +263,7 @@ def text_content(text):
         raise TypeError(
             "text_content must be given text, not '%s'." % type(text).__name__
         )
-    return Content(UTF8_TEXT, lambda: [text.encode("utf8")])
+    return Content(UTF8_TEXT, lambda: [_encode_text(text)])
 
 
 def maybe_wrap(wrapper, func):
